@@ -209,6 +209,10 @@ type Raft struct {
 	// The timestamp representing the time of the last contact by the leader.
 	lastContact time.Time
 
+	// The number of rounds of AppendEntries RPCs this node has started. Used to ensure that
+	// a read-only operation is only confirmed by a round that started after it was submitted.
+	heartbeatRound uint64
+
 	wg sync.WaitGroup
 
 	mu sync.Mutex
@@ -766,6 +770,7 @@ func (r *Raft) submitReadOnlyOperation(
 		Bytes:         operationBytes,
 		OperationType: readOnlyType,
 		readIndex:     r.commitIndex,
+		round:         r.heartbeatRound,
 	}
 	r.operationManager.pendingReadOnly[operation] = operationFuture.responseCh
 
@@ -956,25 +961,29 @@ func (r *Raft) AppendEntries(request *AppendEntriesRequest, response *AppendEntr
 
 // sendAppendEntriesToPeers sends an AppendEntries RPC to all nodes.
 func (r *Raft) sendAppendEntriesToPeers() {
+	// Responses to this round may only confirm read-only operations submitted before it started.
+	r.heartbeatRound++
+	round := r.heartbeatRound
+
 	// Handle the single node cluster case.
 	if r.isSingleServerCluster() {
 		if r.log.LastIndex() > r.commitIndex {
 			r.commitCond.Broadcast()
 		}
-		r.tryApplyReadOnlyOperations()
+		r.tryApplyReadOnlyOperations(round)
 	}
 
 	numResponses := 1
 	for id, address := range r.configuration.Members {
 		if id != r.id {
-			go r.sendAppendEntries(id, address, &numResponses)
+			go r.sendAppendEntries(id, address, &numResponses, round)
 		}
 	}
 }
 
 // sendAppendEntries sends an AppendEntries RPC to a node with the provided ID
 // and address.
-func (r *Raft) sendAppendEntries(id string, address string, numResponses *int) {
+func (r *Raft) sendAppendEntries(id string, address string, numResponses *int, round uint64) {
 	r.mu.Lock()
 	defer r.mu.Unlock()
 
@@ -1042,7 +1051,7 @@ func (r *Raft) sendAppendEntries(id string, address string, numResponses *int) {
 	if numResponses != nil && r.isVoter(id) {
 		*numResponses += 1
 		if r.hasQuorum(*numResponses) {
-			r.tryApplyReadOnlyOperations()
+			r.tryApplyReadOnlyOperations(round)
 			numResponses = nil
 		}
 	}
@@ -1928,9 +1937,10 @@ func (r *Raft) stepdown() {
 }
 
 // tryApplyReadOnlyOperations renews the lease and notifies the read-only
-// loop that it may be possible to apply some read-only operations.
-func (r *Raft) tryApplyReadOnlyOperations() {
-	r.operationManager.markAsVerified()
+// loop that it may be possible to apply some read-only operations. The provided
+// round is the round of AppendEntries RPCs that a quorum responded to.
+func (r *Raft) tryApplyReadOnlyOperations(round uint64) {
+	r.operationManager.markAsVerifiedBefore(round)
 	r.operationManager.leaderLease.renew()
 	r.operationManager.shouldVerifyQuorum = true
 	r.readOnlyCond.Broadcast()
